@@ -66,6 +66,23 @@ def check_set_tweak(prog, an, rep, cn, name, f, c, decl):
                 xor_calls.append(i)
         elif i["op"] == "store" and is_field(i["ops"][1]):
             field_writes.append(i)
+    # R3 provenance: the stored tweak may only ever be written with the caller's bytes or zeros
+    prov_bad = None
+    for i in f.all_insts():
+        if i["op"] == "store" and is_field(i["ops"][1]) and not (i["ops"][0][0] == "c" and int(i["ops"][0][1]) == 0):
+            prov_bad = (i, "a computed value is stored")
+        if i["op"] == "call" and i["callee"][0] == "f":
+            g = prog.resolve(f.unit, i["callee"][1])
+            if g is None:
+                continue
+            gs = an.summaries[g.key]
+            for j, o in enumerate(i["ops"]):
+                if o[0] in ("i", "a") and is_field(o) and any(l.addr.root == ("arg", j) for cs in gs.cls.values() for (l, w) in cs.may.values()):
+                    prov_bad = (i, "%s writes computed bytes into it" % g.name)
+    if prov_bad:
+        rep.violation("C04.R3", cons + ":provenance", f.loc(prov_bad[0]), "the stored tweak is not kept as 'argument bytes followed by zeros': %s, so the remembered tweak no longer equals the last tweak set and later changes depend on earlier tweaks" % prov_bad[1], cfg=cn)
+    else:
+        rep.ok("C04.R3", cons + ":provenance", fsite(f), "the tweak field is only written by copies of the caller's bytes and zero fills", cfg=cn)
     if copy is None or len(xor_calls) != 2:
         # single-pass variant: xor(old ^ new) is accepted only if recognised; anything else is not modelled
         rep.inconclusive("C04.R1", cons, fsite(f), "shadow-tweak idiom not recognised (copy of the old tweak: %s, xor passes: %d)" % ("found" if copy else "missing", len(xor_calls)), cfg=cn)
@@ -255,6 +272,12 @@ def run_config(ctx, rep, cfg):
                 rep.violation("C04.R4", cons, fsite(g), "does not reach %s exactly once" % core, cfg=cn)
                 continue
             i = calls[0]
+            gs = an.summaries[g.key]
+            skipped = [e for e in gs.exit_states if e[0] == "nz" and ("ne", ("call", i["id"]), ("c", 0)) not in e[1].facts]
+            if skipped:
+                rep.violation("C04.R4", cons + ":always", csite(skipped[0][2]), "%s can report success on a path where %s was not called (or its result not checked): the tweak/key the caller passed is ignored there" % (name, core), cfg=cn)
+            else:
+                rep.ok("C04.R4", cons + ":always", g.loc(i), "every success path passes through a successful %s" % core, cfg=cn)
             a1, a2 = i["ops"][1], i["ops"][2]
             while a1[0] == "i" and g.insts[a1[1]]["op"] in CASTS:
                 a1 = g.insts[a1[1]]["ops"][0]
